@@ -974,6 +974,57 @@ def _pad(line, width=141):
 	return 'x' * max(1, width - len(line.replace('\t', '    ')))
 
 
+def code_mask(line):
+	"""([True for a character of code, False for one inside a string literal or the trailing // comment], column of the comment or None)
+	- or None for a line this plain reading does not cover (character literals, /* */, escapes, raw strings, // inside a string, an open
+	string, an empty string literal - the last one is reported to the lead separately: the linter's own stripping takes `"", a, "x"` for one string)."""
+	if "'" in line or '/*' in line or '*/' in line or '\\' in line or 'R"' in line or '""' in line:
+		return None
+	mask = []
+	in_string = False
+	for position, char in enumerate(line):
+		if in_string:
+			mask.append(False)
+			in_string = char != '"'
+			if line.startswith('//', position):
+				return None
+		elif char == '"':
+			mask.append(False)
+			in_string = True
+		elif line.startswith('//', position):
+			return mask + [False] * (len(line) - position), position
+		else:
+			mask.append(True)
+	return None if in_string else (mask, None)
+
+
+COMMA_KINDS = ('beside a trailing // comment', 'two blanks inside the trailing // comment', 'beside a string literal', 'two blanks inside a string literal')
+
+
+def comma_sites(line, kind):
+	"""Columns of the commas in the code of `line` after which the blank can be removed (`, x` -> `,x`; comma and blank are code, what
+	follows is code other than `)` or the opening quote of a string literal), when the line is of the given kind and its code holds
+	neither a comma without a blank nor a run of blanks; else []."""
+	if ', ' not in line or ('two blanks' in kind) != ('  ' in line) or ('//' if 'comment' in kind else '"') not in line:
+		return []
+	reading = code_mask(line)
+	if reading is None:
+		return []
+	mask, comment = reading
+	strings = '"' in line[:comment]
+	outside = [p for p in range(len(line) - 1) if line[p:p + 2] == '  ' and not mask[p] and not mask[p + 1]]
+	if (comment is None or strings) if 'comment' in kind else (comment is not None or not strings):
+		return []
+	if bool(outside) != ('two blanks' in kind):
+		return []
+	code = [p for p in range(len(line)) if mask[p]]
+	if any(line[p] == ',' and p + 1 < len(line) and line[p + 1] != ' ' for p in code):
+		return []
+	if any(line[p] == ' ' and p + 1 < len(line) and mask[p + 1] and line[p + 1] == ' ' for p in code):
+		return []
+	return [p for p in code if line[p] == ',' and p + 2 < len(line) and mask[p + 1] and line[p + 1] == ' ' and line[p + 2] not in ' \t)/']
+
+
 def strata_catalogue(tables, texts):  # pylint: disable=too-many-locals,too-many-statements
 	"""stratum name -> make(rng, path, lines) with attributes .needle (file prefilter) and .informational."""
 	entries = {}
@@ -1031,6 +1082,31 @@ def strata_catalogue(tables, texts):  # pylint: disable=too-many-locals,too-many
 	LINE_KINDS['#define line with parameters'] = ('#define', lambda lines, i: bool(re.match(r'^#define \w+\(\w+, \w+[^"/]*$', lines[i])))
 	line_family('whitespace: comma not followed by a space', 'Whitespaces', 'Comma should be followed by a space', ['#define line with parameters'], drop_space_after_comma)
 
+	# the same comma edit in the CODE of lines that also hold a trailing // comment or a string literal, stratified by what that comment /
+	# literal holds: a run of two blanks there is allowed (aligned comments, message texts) and must not hide the comma in the code
+	for kind in COMMA_KINDS:
+		def comma_beside(rng, path, lines, kind=kind):
+			candidates = [(i, sites) for i, sites in ((i, comma_sites(lines[i], kind)) for i in range(21, len(lines))) if sites]
+			if not candidates:
+				return None
+			i, sites = rng.choice(candidates)
+			position = rng.choice(sites)
+			new = lines[i][:position + 1] + lines[i][position + 2:]
+			return Edit('', path, lines[:i] + [new] + lines[i + 1:], 'Whitespaces', 'Comma should be followed by a space', i + 1, f'stratum {kind}; blank after column {position + 1} removed')
+		comma_beside.wanted = 2 if 'two blanks' in kind else 0
+		add(f'whitespace: comma not followed by a space [{kind}]', ', ', comma_beside)
+
+	def comma_after_empty_literal(rng, path, lines):
+		# `f("", g(""))`: the blank after the comma that follows an EMPTY string literal, on a line that holds another quote later on
+		candidates = [i for i in range(21, len(lines)) if re.search(r'\("", [^"]*"', lines[i]) and '//' not in lines[i] and '  ' not in lines[i].strip()]
+		if not candidates:
+			return None
+		i = rng.choice(candidates)
+		position = lines[i].index('"", ') + 2
+		new = lines[i][:position + 1] + lines[i][position + 2:]
+		return Edit('', path, lines[:i] + [new] + lines[i + 1:], 'Whitespaces', 'Comma should be followed by a space', i + 1, 'stratum comma after an empty string literal')
+	add('whitespace: comma not followed by a space [after an empty string literal]', '"", ', comma_after_empty_literal)
+
 	line_family('whitespace: tabs in empty line', 'Whitespaces', 'Tabs in empty line', ['blank line'], lambda l, k, r: '\t')
 	LINE_KINDS['blank line after the licence header'] = (None, lambda lines, i: i == 20 and lines[i] == '' and lines[0] == '/**')
 	line_family('whitespace: tabs in empty line', 'Whitespaces', 'Tabs in empty line', ['blank line after the licence header'], lambda l, k, r: '\t')
@@ -1072,6 +1148,29 @@ def strata_catalogue(tables, texts):  # pylint: disable=too-many-locals,too-many
 	typo_family('macro continuation line', lambda l, w: l[:-2] + ' /* ' + w + ' */ \\', plain_words)
 	typo_family('licence header line', lambda l, w: l + ' ' + w, anywhere)
 	typo_family('last line of file', lambda l, w: l + ' // ' + w, anywhere)
+
+	# typo list, the entries that are about punctuation (their wording is quoted from the linter's messages), seeded on lines that hold
+	# nothing but punctuation - closing lines of lambdas, calls, initialiser lists, empty bodies - where no word can trigger anything.
+	# (`};` closing a class is left out: a second semicolon there makes the linter's namespace parser give up on the whole run.)
+	def wordless_family(kind, message, regex, edit):
+		pattern = re.compile(regex)
+
+		def make(rng, path, lines):
+			candidates = [i for i in range(21, len(lines)) if pattern.match(lines[i])]
+			if not candidates:
+				return None
+			i = rng.choice(candidates)
+			new = edit(lines[i])
+			assert not re.search(r'\w', new), new
+			return Edit('', path, lines[:i] + [new] + lines[i + 1:], 'Typos', message, i + 1, f'stratum {kind}: {lines[i].strip()!r} -> {new.strip()!r}')
+		add(f'typo list [line without a word character: {kind}]', None, make)
+
+	closing_call = r'^\t+[})]*\);$'
+	wordless_family('second semicolon after a closing `);`', 'no double semicolons', closing_call, lambda l: l + ';')
+	wordless_family('blank before the semicolon of a closing `);`', 'no space before semicolon', closing_call, lambda l: l[:-1] + ' ;')
+	wordless_family('blank inside an empty body `{}`', 'don\'t leave space between braces `{}`', r'^\t+\{\}$', lambda l: l[:-1] + ' }')
+	wordless_family('blank before the comma of a closing `},`', 'do not have space before comma', r'^\t+[})]+,$', lambda l: l[:-1] + ' ,')
+	wordless_family('blank between the closing braces `}}`', 'remove space between braces', r'^\t+\}\}[;)]*$', lambda l: l.replace('}}', '} }', 1))
 
 	# consecutive blank lines by position
 	def blank_family(kind, predicate):
@@ -1553,7 +1652,9 @@ def run(check, unrecognised):  # pylint: disable=too-many-locals,too-many-branch
 		'(typo family: every translatable pattern at least once in thorough, 6 random patterns in quick); every family is additionally STRATIFIED '
 		'by the syntactic kind of the line the edit applies to (code / comment / doc comment / string literal / #include / #define / macro continuation / '
 		'licence header / first and last line; every preprocessor directive keyword and every `#pragma <word>` occurring in the tree; include classes; '
-		'rule set per top directory; blank-line positions incl. directly after / before a line ending in a backslash; dependency rules for every '
+		'rule set per top directory; blank-line positions incl. directly after / before a line ending in a backslash; the comma edit in the code of lines '
+		'that also hold a trailing // comment or a string literal, with and without a run of two blanks inside that comment / literal; the '
+		'punctuation entries of the typo list on lines without any word character (`});` `{}` `},` `}}`); dependency rules for every '
 		'component whose directory name extends a name the rule file has rules for, and for included directories that extend / end with an '
 		'allowed name), at least one site per stratum present in the tree (quick 1, thorough 8). '
 		'(b3) model-independent oracles, in process: checkProjectStructure.check_dependencies on the shipped deps.config against a reading of the '
